@@ -2754,10 +2754,19 @@ pub(crate) fn constrain_type(expr: &mut TypedExpr, expected: &Type) -> Result<()
             for elem in elems.iter_mut() {
                 constrain_type(elem, elem_ty)?;
             }
-            if let (Some(elem), Type::Array(actual, _) | Type::ArrayConst(actual, _)) =
-                (elems.first(), &mut expr.ty)
-            {
-                **actual = elem.ty.clone();
+            if let Some(first) = elems.first() {
+                // an element that could not take on the type that the others took on (a variable
+                // holding untyped numbers next to a literal) has a different type and size now:
+                if let Some(other) = elems.iter().find(|elem| elem.ty != first.ty) {
+                    let e = TypeErrorEnum::UnexpectedType {
+                        expected: first.ty.clone(),
+                        actual: other.ty.clone(),
+                    };
+                    return Err(vec![Some(TypeError::new(e, other.meta))]);
+                }
+                if let Type::Array(actual, _) | Type::ArrayConst(actual, _) = &mut expr.ty {
+                    **actual = first.ty.clone();
+                }
             }
         }
         (
